@@ -94,6 +94,7 @@ def detect(base, cur_inv, cur_txt):
     vocab = set(base['vocab'])
     ren = {}
     log = []
+    flags = []          # (adt path on the reference tree, reference field name, path of the two-variant enum that replaced its bool)
     structured = []     # (adt path on the reference tree, new field name, reference field name): applied to field positions only
 
     def accept(pairs, why):
@@ -180,6 +181,16 @@ def detect(base, cur_inv, cur_txt):
                 return t_
             for (bn, bt), (cn, ct) in zip(bf, cf):
                 ctn = _sub(_subpaths(ct, paths), list(ren.items()))
+                fe_ = cur_inv['adts'].get(ct)
+                if bt == 'bool' and fe_ and ct not in b_adts and fe_['kind'] == 'enum' and len(fe_['variants']) == 2 and all(not fs_ for _, fs_ in fe_['variants']) and \
+                        (bn == cn or bn not in [x for x, _ in cf]):
+                    # a flag of the reference tree that became a two-variant enum (which variant means `true` is settled from what the
+                    # constructors store, see Facts.resolve_flags); a new field name is mapped back for field uses of this type
+                    flags.append((op, bn, ct))
+                    log.append('field %s of %s (bool on the reference tree) is now %s: %s, a two-variant enum' % (bn, op, cn, ct))
+                    if bn != cn:
+                        structured.append((p, cn, bn))
+                    continue
                 if bn != cn and (ctn == bt or _sub(_subpaths(unwrapped(ct), paths), list(ren.items())) == bt) and bn not in [x for x, _ in cf]:
                     if cn in vocab or not IDENT.fullmatch(cn) or not IDENT.fullmatch(bn):      # (tuple field <-> named field: `0` is not an identifier)
                         # the new name already means something elsewhere: rename this field only where it is used as a field of this type
@@ -301,7 +312,7 @@ def detect(base, cur_inv, cur_txt):
             log.append('struct %s (new, private, plain data) names the slots of the tuple %s of the reference tree: seen as that tuple' % (p_, tup_))
         else:
             log.append('not applied: struct %s as tuple %s: a reference function using the tuple has no counterpart with the reference signature' % (p_, tup_))
-    return list(ren.items()), log, structured, paths, ok_tuples
+    return list(ren.items()), log, structured, paths, ok_tuples, flags
 
 
 def _sig_arity_ret(sig):
@@ -361,13 +372,14 @@ def renames_for(raw_std_unimock, raw_std_macros):
     if not os.path.exists(BASELINE):
         return Renames([]), ['no baseline inventory: names are taken as they are']
     base = json.load(open(BASELINE))
-    ren, log, structured, paths, tups = [], [], [], [], []
+    ren, log, structured, paths, tups, flgs = [], [], [], [], [], []
     for crate, raw in (('unimock', raw_std_unimock), ('unimock_macros', raw_std_macros)):
         if raw is None or crate not in base:
             continue
         inv = inventory(json.loads(raw))
-        r, l, st, pa, tu = detect(base[crate], inv, raw)
+        r, l, st, pa, tu, fl = detect(base[crate], inv, raw)
         tups += tu
+        flgs += fl
         for x in r:
             if x not in ren:
                 ren.append(x)
@@ -377,6 +389,7 @@ def renames_for(raw_std_unimock, raw_std_macros):
     rr = Renames(ren, structured)
     rr.paths = paths
     rr.tuples = tups
+    rr.flags = flgs
     return rr, log
 
 
@@ -387,9 +400,10 @@ class Renames(list):
         self.structured = list(structured)
         self.paths = []
         self.tuples = []
+        self.flags = []
 
     def __bool__(self):
-        return len(self) > 0 or bool(self.structured) or bool(self.paths) or bool(self.tuples)
+        return len(self) > 0 or bool(self.structured) or bool(self.paths) or bool(self.tuples) or bool(self.flags)
 
 
 def apply_structured(j, structured):
